@@ -1,7 +1,7 @@
 #!/usr/bin/env python3
 """Process-level checks (interfaces I9, I10 of DESIGN.md): C19 (a failed generation never damages an
 existing output file), C14 (byte-identical output across runs), C13 (termination on every input text)."""
-import concurrent.futures as cf, hashlib, json, os, random, shutil, subprocess, sys, time
+import concurrent.futures as cf, hashlib, json, os, random, re, shutil, subprocess, sys, time
 sys.path.insert(0, os.path.dirname(os.path.abspath(__file__)))
 import vlib, gram, genrun
 
@@ -249,6 +249,10 @@ def run_C14(ctx):
 
     def one(j):
         name, tn, args, src, out = j
+        if re.search(r'_[1359]\.\w+$', out):
+            # some of the runs regenerate in place: the output path already holds a longer file (the result must not depend on it)
+            with open(out, 'w') as f:
+                f.write('// an older, longer output\n' + '/* stale */ }\n' * 30000)
         try:
             r = subprocess.run([yaccgo] + args + [src, out], capture_output=True, timeout=60)
             rc = r.returncode
